@@ -38,6 +38,12 @@ CHECKS = {
  "C09": ("Coq proof on TaskFS (failure leads to the absorbing exited state, failed outputs untouched, no dependant leaves Wait) + T1 conformance of the Fail paths + T3 failure injection incl. task-formation failures",
          "Theorems over all DAGs and schedules; real runs with one failing task (five failure kinds, shell and Go function, concurrent siblings) and formation failures are monitored for exit status, completion marker, failed outputs, dependants and content of everything finalized.",
          "7 C09", ""),
+ "C06": ("Coq proof of the token invariant of the slot machine over all capacities, core counts and schedules + T1 exact conformance of IncConcurrentTasks / DecConcurrentTasks and their position in Task.Execute + T3 overlap and token-log monitors",
+         "The sum of cores of executing tasks is bounded by the capacity in every reachable state of the model, for every schedule; the model's program is the regenerated skeleton of the two slot functions; real runs with mixed core counts are monitored through command-interval overlap (a lower bound, so no false alarm) and the deposit/removal hook log.",
+         "7 C06", ""),
+ "C07": ("Coq proof (progress in every reachable state when cores <= cap; work conservation of acquire-only runs; refuted variant without the mutex) + T1 conformance + T3 rendezvous commands under seeded delays between token deposits, mixed-core competition, oversize rejection",
+         "Deadlock freedom and work conservation are theorems over all schedules of the slot machine; rendezvous workflows make non-simultaneous execution observable as a failure on the real library, with delays injected between the individual token deposits.",
+         "7 C07", ""),
 }
 
 def main():
